@@ -225,21 +225,55 @@ def _work(tag):
     return d
 
 
-def dep_dir(name):
-    d = os.path.join(_work("deps"), name)
+def dep_dir(name, base=None):
+    d = os.path.join(base or _work("deps"), name)
     os.makedirs(d, exist_ok=True)
+    os.makedirs(os.path.join(os.path.dirname(d), "sub"), exist_ok=True)
     return d
 
 
-def spec_dict(case):
-    """The YAML document of a case (a plain dict, dumped with yaml)."""
+PATH_FORMS = ["abs", "rel", "dot", "dotdot", "trail", "dbl", "abs_trail", "abs_dotdot", "dot_trail"]
+
+
+def path_text(name, form, base=None, cwd=None):
+    """The text written into env.dependencies.paths for an existing directory:
+    absolute and normalised, or relative to the process cwd / "./"-prefixed /
+    with a ".." component / with a trailing or a doubled slash.  The oracle for
+    the token's value is os.path.abspath(text) at the cwd of the loading process."""
+    d = dep_dir(name, base)
+    rel = os.path.relpath(d, cwd or os.getcwd())
+    if form == "rel":
+        return rel
+    if form == "dot":
+        return "./" + rel
+    if form == "dot_trail":
+        return "./" + rel + "/"
+    if form == "dotdot":
+        return os.path.join(os.path.dirname(rel), "sub", "..", name)
+    if form == "trail":
+        return rel + "/"
+    if form == "dbl":
+        return os.path.dirname(rel) + "//" + name
+    if form == "abs_trail":
+        return d + "/"
+    if form == "abs_dotdot":
+        return os.path.join(os.path.dirname(d), "sub", "..", ".", name)
+    return d
+
+
+def spec_dict(case, base=None, cwd=None):
+    """The YAML document of a case (a plain dict, dumped with yaml).  `base` /
+    `cwd`: where the dependency directories live and which cwd relative path
+    texts refer to (the CLI stream; default: the harness' own)."""
     env = OrderedDict()
     if case.get("variables"):
         env["variables"] = OrderedDict(case["variables"])
     if case.get("labels"):
         env["labels"] = OrderedDict(case["labels"])
     if case.get("paths"):
-        env["dependencies"] = {"paths": [{"name": n, "path": dep_dir(n)} for n in case["paths"]]}
+        forms = case.get("path_forms") or {}
+        env["dependencies"] = {"paths": [{"name": n, "path": path_text(n, forms.get(n, "abs"), base, cwd)}
+                                         for n in case["paths"]]}
     doc = OrderedDict()
     doc["description"] = {"name": "c09 study", "description": "generated"}
     if env:
@@ -525,6 +559,8 @@ def gen_case(rng, exotic=None, shape=None, api=False):
     if shape is not None:
         paths = rng.sample(DEP_NAMES, rng.choice([1, 2])) if shape[2] else []
     case["paths"] = paths
+    # how each path is written: half of them not absolute-and-normalised
+    case["path_forms"] = {n: (rng.choice(PATH_FORMS[1:]) if rng.random() < 0.6 else "abs") for n in paths}
     # parameters
     npar = rng.choice([0, 1, 1, 2, 2, 3, 4])
     if shape is not None and shape[1] and not shape[0] and npar == 0:
@@ -962,9 +998,13 @@ def gen_cli_case(rng, k):
     v["RESULTS"] = "$(OUTPUT_PATH)/results"   # variable whose value mentions OUTPUT_PATH (-> label)
     c["variables"] = v
     c["labels"]["INDIR"] = "$(SPECROOT)/inputs/$(BASE0)"
+    if not c["paths"]:
+        c["paths"] = ["DEP1"]
+    c["path_forms"] = {n: PATH_FORMS[(k + j) % len(PATH_FORMS)] for j, n in enumerate(c["paths"])}
     st = rng.choice(c["steps"])
-    st["run"]["cmd"] += " --out=$(OUTPUT_PATH)/a.txt --in $(SPECROOT)/b.txt $(RESULTS) $(INDIR)"
-    st["run"]["restart"] = (st["run"].get("restart", "") + " resume $(RESULTS)/r $(OUTPUT_PATH):$(SPECROOT) $(INDIR)").strip()
+    deps = " ".join("$(%s)/deck" % n for n in c["paths"])
+    st["run"]["cmd"] += " --out=$(OUTPUT_PATH)/a.txt --in $(SPECROOT)/b.txt $(RESULTS) $(INDIR) " + deps
+    st["run"]["restart"] = (st["run"].get("restart", "") + " resume $(RESULTS)/r $(OUTPUT_PATH):$(SPECROOT) $(INDIR) " + deps).strip()
     return c
 
 
@@ -984,10 +1024,18 @@ def cli_one(case, tag):
     os.makedirs(specdir)
     os.makedirs(cwd)
     try:
-        model, _ = run_impl(case, "cli-" + tag)
+        # the model: the in-process build with absolute paths; the dependency
+        # entries then get abspath(text as written) at the sub-process' cwd
+        model, _ = run_impl(dict(case, path_forms={}), "cli-" + tag)
         if model is None or model.get("order") is None:
             return None, "EXC:model"
-        text = yaml.dump(_plain(spec_dict(case)), sort_keys=False, allow_unicode=True, width=10 ** 6)
+        depbase = os.path.join(specdir, "deps")
+        doc = spec_dict(case, base=depbase, cwd=cwd)
+        written = {p_["name"]: p_["path"] for p_ in ((doc.get("env") or {}).get("dependencies") or {}).get("paths", [])}
+        for op in model["env"]:
+            if op[0] == "dep" and op[1] in written:
+                op[2] = os.path.normpath(os.path.join(cwd, written[op[1]]))
+        text = yaml.dump(_plain(doc), sort_keys=False, allow_unicode=True, width=10 ** 6)
         spec_path = os.path.join(specdir, "spec.yaml")
         with open(spec_path, "w", encoding="utf-8") as f:
             f.write(text)
@@ -1247,6 +1295,8 @@ def classify(ck, rows, errs, dist):
         dist["instances:%s" % ("raised" if obs == "Raised" else min(ninst, 12))] += 1
         dist["hyg:%s" % r.get("hyg")] += 1
         dist["hyg:%s:%s" % (stream.split(":")[0], r.get("hyg"))] += 1
+        for n_, f_ in (c.get("path_forms") or {}).items():
+            dist["dep_path:%s:%s" % ("cli" if c.get("cli") else "api", f_)] += 1
         if c.get("cli"):
             dist["cli:%s:%s" % ("-o" if c["cli"]["out"] else "default_dir",
                                 "spec_has_OUTPUT_PATH" if c["cli"]["spec_output_path"] else "no_OUTPUT_PATH")] += 1
@@ -1353,6 +1403,11 @@ def run(ck):
                       "one the hash_ws=False run records for the same instance -- implementation to implementation for "
                       "the directory names -- then C09_ok is evaluated as usual; a reference that is not exactly a "
                       "recorded workspace stays un-renamed and fails), "
+                      "path dependencies written as absolute / relative / ./-prefixed / ..-containing / trailing-slash / "
+                      "doubled-slash texts of existing directories (the model's table maps $(NAME) to "
+                      "os.path.abspath(text) at the cwd of the loading process, which is what the unchanged tree does at "
+                      "PathDependency construction; Study built in run_study's order environment -> add steps -> "
+                      "setup_environment -> stage), "
                       "a CLI stream (generated studies using $(OUTPUT_PATH) / $(SPECROOT) directly and through a variable "
                       "and a label, written as YAML and run through the literal `maestro run -y -fg --dry [-o OUT]` in a "
                       "sub-process; scripts read back from the pickled graph of the output directory, judged by the same "
